@@ -50,6 +50,8 @@ type engDrv struct {
 	nwrite int
 	// reverse iterators with these Max positions are left out (-norevprefix)
 	skipRevMax map[int]bool
+	// reused key / value buffers handed to the engine (see scratch)
+	scr [2][]byte
 	// last operation kind per key position in the open batch (random -indep mode)
 	lastOn map[int]string
 }
@@ -132,23 +134,52 @@ func hexs(ss []string) []string {
 	return out
 }
 
+// scratch returns b in a reused buffer with spare capacity; the caller scribbles over it after
+// the engine call returned: an engine must not keep a reference to the caller's key or value
+// (rockredis builds keys in reused buffers)
+func (d *engDrv) scratch(which int, b []byte) []byte {
+	if b == nil {
+		return nil
+	}
+	buf := d.scr[which]
+	if cap(buf) < len(b)+16 {
+		buf = make([]byte, 0, len(b)+64)
+	}
+	buf = append(buf[:0], b...)
+	d.scr[which] = buf
+	return buf
+}
+
+func (d *engDrv) scribble() {
+	for i := range d.scr {
+		b := d.scr[i][:cap(d.scr[i])]
+		for j := range b {
+			b[j] = '@'
+		}
+	}
+}
+
 func (d *engDrv) bput(k, v int) {
-	d.batch().Put(d.key(k), encVal(v))
+	d.batch().Put(d.scratch(0, d.key(k)), d.scratch(1, encVal(v)))
+	d.scribble()
 	d.tw.Emit(trace.M{"ev": "bput", "k": k, "v": v})
 	d.nwrite++
 }
 func (d *engDrv) bdel(k int) {
-	d.batch().Delete(d.key(k))
+	d.batch().Delete(d.scratch(0, d.key(k)))
+	d.scribble()
 	d.tw.Emit(trace.M{"ev": "bdel", "k": k})
 	d.nwrite++
 }
 func (d *engDrv) bdelrange(lo, hi int) {
-	d.batch().DeleteRange(d.key(lo), d.key(hi))
+	d.batch().DeleteRange(d.scratch(0, d.key(lo)), d.scratch(1, d.key(hi)))
+	d.scribble()
 	d.tw.Emit(trace.M{"ev": "bdelrange", "lo": lo, "hi": hi})
 	d.nwrite++
 }
 func (d *engDrv) bmerge(k, dl int) {
-	d.batch().Merge(d.key(k), encVal(dl))
+	d.batch().Merge(d.scratch(0, d.key(k)), d.scratch(1, encVal(dl)))
+	d.scribble()
 	d.tw.Emit(trace.M{"ev": "bmerge", "k": k, "d": dl})
 	d.nwrite++
 }
